@@ -45,7 +45,7 @@ func Profile() *world.Profile {
 	}
 	p.Ops = make([]int, world.NumOps)
 	for i, w := range map[int]int{world.OpYield: 2, world.OpWriteHeader: 2, world.OpWrite: 2, world.OpFlush: 1, world.OpNext: 5, world.OpNextSwallow: 1,
-		world.OpCancel: 2, world.OpSetHeader: 1, world.OpStatus: 1, world.OpBefore: 1, world.OpReplaceCtx: 1, world.OpExpireCtx: 1, world.OpMapOwnWriter: 1, world.OpRedirect: 1, world.OpHTTPError: 1} {
+		world.OpCancel: 2, world.OpSetHeader: 1, world.OpStatus: 1, world.OpBefore: 1, world.OpReplaceCtx: 1, world.OpExpireCtx: 1, world.OpMapOwnWriter: 1, world.OpRedirect: 1, world.OpHTTPError: 1, world.OpCopy: 2, world.OpMapRH: 1} {
 		p.Ops[i] = w
 	}
 	return p
